@@ -17,11 +17,11 @@ KNOWN = {
 
 
 def run(res):
-    rend = (None,) if res.tier == 'quick' else ('git', 'diff3', 'builtin')
+    rend = (None,) if res.tier == 'quick' else ('git', 'diff3', 'builtin', 'diff', 'diff3only', 'gitonly')
     mergecommon.run_merge_cases(res, {'C03'}, 'C03', KNOWN, quick=(64, 80, 16), thorough=(128, 100, 282), renderers=rend)
     if res.tier == 'quick':
         # the three text-merge helpers, on a smaller sample
-        mergecommon.run_merge_cases(res, {'C03'}, 'C03', KNOWN, quick=(8, 40, 8), renderers=('diff3', 'builtin'))
+        mergecommon.run_merge_cases(res, {'C03'}, 'C03', KNOWN, quick=(8, 40, 8), renderers=('diff3', 'builtin', 'diff', 'diff3only', 'gitonly'))
     res.assumptions += ['bounded: only the stated small scope of notebooks, edit scripts and strategy tables is explored',
                         'external helpers git merge-file / diff3 behave as installed in this sandbox']
 
